@@ -100,7 +100,12 @@ def r171(db, ctx):
                 for r in rels:
                     if r[0] == 'eq':
                         for side in (r[1], r[2]):
-                            v = common.str_const(norm(side)) if norm(side)[0] == 'kc' else None
+                            ns = norm(side)
+                            if ns[0] == 'promoted':
+                                # `method == "meme"` compares against a promoted `&"meme"`
+                                pe = common.promoted_expr(db, ns[1], ns[2])
+                                ns = norm(pe) if pe is not None else ns
+                            v = common.str_const(ns) if ns[0] == 'kc' else None
                             if v:
                                 lits.append(v)
                 table.setdefault(tuple(lits), set()).add(c.rsplit('::', 2)[-2] + '::' + c.rsplit('::', 1)[-1])
